@@ -112,7 +112,10 @@ def build(spec):
         shapes = [list(base)] * n
     root = IdRoot(n, spec["C"], spec["key"], shapes)
     try:
-        ds = KDMixWrapper(root, mixup_p=spec["p"], mixup_alpha=spec["alpha"], seed=spec["seed"],
+        seed = spec["seed"]
+        if seed is not None and spec.get("seed_form") == "numpy":
+            seed = np.int64(seed)  # a seed taken from an array of seeds
+        ds = KDMixWrapper(root, mixup_p=spec["p"], mixup_alpha=spec["alpha"], seed=seed,
                           mixup_unify_shapes_mode="pad_or_cut_end" if spec["unify"] else None)
     except AssertionError:
         raise Refused("constructor assertion")
@@ -192,6 +195,7 @@ def spec_s(draw, big=False):
             "shape": draw(st.sampled_from([[1, 4, 5], [3, 2, 2], [2, 6], [1, 1, 1], [5]])),
             "unify": False if big else draw(st.booleans()), "p": draw(st.sampled_from([1.0, 0.5, 0.2, 0.9])),
             "alpha": draw(st.sampled_from([0.1, 0.8, 1.0, 4.0])), "seed": draw(st.one_of(st.none(), st.integers(0, 2 ** 31))),
+            "seed_form": draw(st.sampled_from(["int", "int", "numpy"])),
             "idx": draw(st.lists(st.integers(0, 100), min_size=1, max_size=6)),
             "forms": draw(st.lists(st.sampled_from(FORMS), min_size=1, max_size=5, unique=True))}
 
